@@ -6,6 +6,9 @@ Local Open Scope N_scope.
 
 (* ---------- membership ---------- *)
 
+Lemma mem_nil : forall x, mem x [] = false.
+Proof. reflexivity. Qed.
+
 Lemma mem_In : forall x s, mem x s = true <-> In x s.
 Proof.
   induction s as [|y t IH]; cbn [mem In].
